@@ -62,3 +62,21 @@ fn probe_pv_lean() {
     let r = crate::c06_liquidity::check_pool_value_u8(&m, &p, kani::any(), kani::any());
     kani::cover!(matches!(r, Some(v) if v > 0), "positive pool value");
 }
+
+// whole swap from one concrete pool state, symbolic request + fee/impact factors
+#[kani::proof]
+#[kani::unwind(1)]
+fn probe_c() {
+    let mut m = crate::c06_liquidity::base_market_u8();
+    m.primary = VPool::new(50, 40);
+    m.swap_impact = VPool::new(3, 3);
+    m.fee = VPool::new(1, 1);
+    m.swap_fee_positive = kani::any();
+    m.swap_fee_negative = kani::any();
+    m.swap_fee_receiver = kani::any();
+    m.swap_impact_positive = kani::any();
+    m.swap_impact_negative = kani::any();
+    let r = check_swap(&mut m, kani::any(), kani::any(), any_prices_u8(), true, true);
+    kani::cover!(r.is_some(), "swap succeeded");
+    kani::cover!(r.is_none(), "swap failed");
+}
